@@ -5,12 +5,12 @@ KIT = "harness/core/internal/integration_tests/vfnet_test.go"
 PROP = {
     "level": "exploration",
     "technique": ("runtime monitoring, differential: real Hysteria server vs. a plain quic-go http3.Server with the same "
-                  "http.Handler, identical raw HTTP/3 clients, one synctest bubble on simnet; accepted-auth decided by the "
-                  "authenticator fake's event log"),
+                  "http.Handler, identical raw HTTP/3 clients, one synctest bubble on simnet (overlapping-request part: simnet in "
+                  "real time with a logical clock); accepted-auth decided by the authenticator fake's event log"),
     "jobs": [
         job("masq", "core", "./internal/integration_tests/", "integration_tests",
             [KIT, "harness/core/internal/integration_tests/c02_masq_test.go"], "^TestVerifC02",
-            ["c02-matrix", "c02-scripts"], race=False, timeout_quick=600, timeout_thorough=3600),
+            ["c02-matrix", "c02-scripts", "c02-overlap"], race=False, timeout_quick=600, timeout_thorough=3600),
     ],
     "min_events": 2000,
     "rule": ("Each world = one real Hysteria server (MasqHandler = nil or a deterministic custom web application that "
@@ -34,11 +34,22 @@ PROP = {
              "starting with 'Hysteria'; near-misses never reach the authenticator. Repeated POST hysteria/auth on an already "
              "accepted connection is C01's subject and is not compared. Unauthenticated stream: bytes read must not parse as "
              "a TCPResponse (unless the plain web server returns the same bytes); unauthenticated datagrams: none received "
-             "until 1 s virtual after the script. evaluation = one request / stream / datagram action; non-trivial = a "
+             "until 1 s virtual after the script. Part c02-overlap (simnet in REAL time, because a request waiting on a server "
+             "mutex would freeze a bubble's clock): OVERLAPPING requests on one unauthenticated connection. A POST hysteria/auth "
+             "with to-be-rejected credentials is kept pending (a) inside the authenticator fake ('hold:' credential) or (b) "
+             "inside the custom masquerade handler answering the rejected request (gate); meanwhile 1..3 ordinary / near-miss "
+             "requests go out on the same connection (and on its twin to the reference). Logical clock: 40 sequential "
+             "request/response round trips on a second, untouched connection to each server; if they complete (confirmed by a "
+             "second 40), the pending request is still pending, the reference answered the overlapping request and the Hysteria "
+             "server did not -> server:request-stalled-behind-pending-auth. After release every response (overlapping and the "
+             "rejected auth itself) is compared with the reference as above and the authenticator log must contain exactly the "
+             "one pending call. Real time only orchestrates; 30 s watchdogs yield inconclusive. "
+             "evaluation = one request / stream / datagram action; non-trivial = a "
              "compared request; distinct = distinct (handler, authenticated?, method, host, path, header set, mode, body)."),
     "assumptions": [
         "quic-go's http3.Server with the same handler is the definition of 'the response the handler gives on a plain web server'",
-        "requests on one connection are sequential, so authenticator events logged while a request is in flight belong to it",
+        "matrix/scripts parts: requests on one connection are sequential, so authenticator events logged while a request is in flight belong to it",
+        "overlap part: a request that the reference answers and the Hysteria server does not answer during 2x40 sequential round trips on another connection of the same process, while the auth request is verifiably still pending, counts as stalled (no wall-clock threshold)",
         "absence of datagrams / stray authenticator calls is observed until virtual quiescence plus 1 s virtual settle",
         "case variants of the host and 'hysteria:443', and POST hysteria/auth with a query string, are not generated (debatable)",
         "equality of the Date header value is not demanded (compared, mismatch only counted)",
